@@ -81,6 +81,23 @@ theorem parses_back (T : NQ.Tables) (hT1 : C01.TablesOK T) (hT : TablesCanon T) 
       NQ.run T urlOk .eof true out.bytes = (qs'.map (Quad.map (Proofs.C03.labelOf out)), .clean) :=
   Proofs.C03.parses_back T hT1 hT hL urlOk qs out hs hwf hwf1
 
+/-- **Non-isomorphic datasets have different canonical forms** (contrapositive): if two results have
+    the same bytes, the two input sequences are reorderings of each other up to the two (injective,
+    by `issued_map_is_renaming`) relabellings — the datasets are isomorphic. -/
+theorem equal_output_isomorphic {γ : Type} [DecidableEq γ] (T : NQ.Tables) (hT1 : C01.TablesOK T)
+    (hT : TablesCanon T) (hL : Proofs.C03.TablesLabel T) (urlOk : List Nat → Bool)
+    (qs : List (Quad β)) (out : Rdfcanon.Out β) (hs : Proofs.C03.Shape T qs out)
+    (hwf : ∀ q ∈ qs, WFQuad T q) (hwf1 : ∀ q ∈ qs, C01.WFQuad urlOk q)
+    (qs2 : List (Quad γ)) (out2 : Rdfcanon.Out γ) (hs2 : Proofs.C03.Shape T qs2 out2)
+    (hwf2 : ∀ q ∈ qs2, WFQuad T q) (hwf12 : ∀ q ∈ qs2, C01.WFQuad urlOk q)
+    (hb : out.bytes = out2.bytes) :
+    ∃ (qs' : List (Quad β)) (qs2' : List (Quad γ)), qs'.Perm qs ∧ qs2'.Perm qs2 ∧
+      qs'.map (Quad.map (Proofs.C03.labelOf out)) = qs2'.map (Quad.map (Proofs.C03.labelOf out2)) := by
+  obtain ⟨qs', hp, hr⟩ := parses_back T hT1 hT hL urlOk qs out hs hwf hwf1
+  obtain ⟨qs2', hp2, hr2⟩ := parses_back T hT1 hT hL urlOk qs2 out2 hs2 hwf2 hwf12
+  rw [hb, hr2] at hr
+  exact ⟨qs', qs2', hp, hp2, (Prod.mk.inj hr).1.symm⟩
+
 /-- **first_degree_perm**: Hash First Degree Quads does not depend on the order of the quads. -/
 theorem first_degree_perm (H : Str → Str) {qs qs' : List (Quad β)} (h : qs.Perm qs') (b : β) :
     Spec.RDFC10.hashFirstDegree H (Spec.RDFC10.bnodeToQuads true qs) b
